@@ -26,7 +26,8 @@ def env_suite(ctx, model_ok):
     """JWT_CRYPTO at library initialisation: re-execute the executor per value"""
     vals = [None, b"", b"openssl", b"gnutls", b"OpenSSL", b"gnutls ", b"junk", b"gnutl", b"x" * 200,
             # the names are matched exactly: another spelling of the provider that is NOT the default selects nothing
-            b"GnuTLS", b"GNUTLS", b"Gnutls", b"gnutlS", b" gnutls", b"gnutls\n", b"gnutlsx", b"gnutls,openssl", b"OPENSSL", b"gnutls" + b" " * 40, b"g" + b"n" * 31]
+            b"GnuTLS", b"GNUTLS", b"Gnutls", b"gnutlS", b" gnutls", b"gnutls\n", b"gnutlsx", b"gnutls,openssl", b"OPENSSL", b"gnutls" + b" " * 40, b"g" + b"n" * 31,
+            b"gnutls" + b"x" * 255, b"gnutls" + b"x" * 256, b"gnutls" + b"x" * 257, b"gnutls" + b"s" * 512, b"gnutls" + b" " * 1024, b"gnutls" + b"x" * 65536]
     evals, bad, samples = 0, 0, []
     for v in vals:
         env = {} if v is None else {"JWT_CRYPTO": v.decode()}
